@@ -214,34 +214,45 @@ section path
 variable {B : Type}
 
 /-- the entry a visit contributes -/
-def addOf (maxSize : Nat) (root : Name) (v : Visit B) : Option (Name × B) :=
-  match pathCallback maxSize root v with
+def addOf (strict : Bool) (maxSize : Nat) (root : Name) (v : Visit B) : Option (Name × B) :=
+  match pathCallback strict maxSize root v with
   | .add k b => some (k, b)
   | _ => none
 
-theorem walkFold_result (maxSize : Nat) (root : Name) (vs : List (Visit B)) (acc : PemMap B) :
-    walkFold maxSize root vs acc =
-      if vs.all (fun v => !(pathCallback maxSize root v).isFail)
-      then some ((vs.filterMap (addOf maxSize root)).reverse ++ acc) else none := by
+theorem walkFold_result (strict : Bool) (maxSize : Nat) (root : Name) (vs : List (Visit B)) (acc : PemMap B) :
+    walkFold strict maxSize root vs acc =
+      if vs.all (fun v => !(pathCallback strict maxSize root v).isFail)
+      then some ((vs.filterMap (addOf strict maxSize root)).reverse ++ acc) else none := by
   induction vs generalizing acc with
   | nil => simp [walkFold]
   | cons v vs ih =>
     unfold walkFold
-    cases hc : pathCallback maxSize root v with
+    cases hc : pathCallback strict maxSize root v with
     | skip => simp [ih, addOf, hc, CbRes.isFail]
     | fail => simp [hc, CbRes.isFail]
     | add k b => simp [ih, addOf, hc, CbRes.isFail]
 
-/-- What makes the walk function fail: an error on a path other than the root, or a selected file that cannot
-be read. -/
-theorem pathCallback_fail_iff (maxSize : Nat) (root : Name) (v : Visit B) :
-    pathCallback maxSize root v = .fail ↔
-      (v.path ≠ root ∧ (v.kind = .lstatErr ∨ v.kind = .dir true)) ∨
+/-- The error a visit carries is swallowed: it is on the root and (for the repaired function) says "does not
+exist". -/
+def swallowed (strict : Bool) (root : Name) (v : Visit B) (e : FsErr) : Bool :=
+  v.path = root && (!strict || e == .notExist)
+
+/-- What makes the walk function fail: an error that is not swallowed, or a selected file that cannot be read. -/
+theorem pathCallback_fail_iff (strict : Bool) (maxSize : Nat) (root : Name) (v : Visit B) :
+    pathCallback strict maxSize root v = .fail ↔
+      (∃ e, v.err = some e ∧ swallowed strict root v e = false) ∨
       (selected maxSize v = true ∧ ∃ size, v.kind = .file size none) := by
-  unfold pathCallback selected
+  unfold pathCallback selected Visit.err swallowed
   cases hk : v.kind with
-  | lstatErr => by_cases h : v.path = root <;> simp [h]
-  | dir e => cases e <;> by_cases h : v.path = root <;> simp [h]
+  | lstatErr e =>
+    generalize (decide (v.path = root) && (!strict || e == .notExist)) = c
+    cases c <;> simp
+  | dir e =>
+    cases e with
+    | none => simp
+    | some e =>
+      generalize (decide (v.path = root) && (!strict || e == .notExist)) = c
+      cases c <;> simp
   | file size content =>
     by_cases h1 : (ext v.name != sPem || hasDotPrefix v.name) = true
     · simp only [h1, if_true, reduceCtorEq, false_iff]
@@ -254,13 +265,16 @@ theorem pathCallback_fail_iff (maxSize : Nat) (root : Name) (v : Visit B) :
       · have h2' : size ≤ maxSize := by omega
         cases content <;> simp [h2, h1.1, h1.2, h2']
 
-theorem pathCallback_add_iff (maxSize : Nat) (root : Name) (v : Visit B) (k : Name) (b : B) :
-    pathCallback maxSize root v = .add k b ↔
+theorem pathCallback_add_iff (strict : Bool) (maxSize : Nat) (root : Name) (v : Visit B) (k : Name) (b : B) :
+    pathCallback strict maxSize root v = .add k b ↔
       k = v.path ∧ selected maxSize v = true ∧ ∃ size, v.kind = .file size (some b) := by
   unfold pathCallback selected
   cases hk : v.kind with
-  | lstatErr => by_cases h : v.path = root <;> simp [h]
-  | dir e => cases e <;> by_cases h : v.path = root <;> simp [h]
+  | lstatErr e => by_cases h : (decide (v.path = root) && (!strict || e == .notExist)) = true <;> simp [h]
+  | dir e =>
+    cases e with
+    | none => simp
+    | some e => by_cases h : (decide (v.path = root) && (!strict || e == .notExist)) = true <;> simp [h]
   | file size content =>
     by_cases h1 : (ext v.name != sPem || hasDotPrefix v.name) = true
     · simp only [h1, if_true, reduceCtorEq, false_iff]
@@ -280,42 +294,51 @@ theorem pathCallback_add_iff (maxSize : Nat) (root : Name) (v : Visit B) (k : Na
           · rintro ⟨rfl, rfl⟩; exact ⟨rfl, rfl⟩
           · rintro ⟨rfl, rfl⟩; exact ⟨rfl, rfl⟩
 
-/-- **`loadPath` fails exactly when** (for a non-empty root) something below the root cannot be stat'ed or
-listed, or a selected file (`*.pem`, no dot-file, not larger than `MaxSize`) cannot be read. -/
+/-- **`loadPath` fails exactly when** (for a non-empty root) some path cannot be stat'ed or some directory not be
+listed — unless it is the root itself and the root does not exist — or a selected file (`*.pem`, no dot-file,
+not larger than `MaxSize`) cannot be read. -/
 theorem loadPath_err_iff (maxSize : Nat) (root : Name) (vs : List (Visit B)) :
-    loadPath maxSize root vs = .err ↔
+    loadPath true maxSize root vs = .err ↔
       root ≠ [] ∧ ∃ v ∈ vs,
-        (v.path ≠ root ∧ (v.kind = .lstatErr ∨ v.kind = .dir true)) ∨
+        (∃ e, v.err = some e ∧ ¬(v.path = root ∧ e = .notExist)) ∨
         (selected maxSize v = true ∧ ∃ size, v.kind = .file size none) := by
   unfold loadPath
   by_cases hr : root = []
   · simp [hr]
   · have hr' : root.isEmpty = false := by simpa using hr
+    have key : ∀ v : Visit B, pathCallback true maxSize root v = .fail ↔
+        ((∃ e, v.err = some e ∧ ¬(v.path = root ∧ e = .notExist)) ∨
+         (selected maxSize v = true ∧ ∃ size, v.kind = .file size none)) := by
+      intro v
+      rw [pathCallback_fail_iff]
+      simp [swallowed]
     simp only [hr', Bool.false_eq_true, if_false, walkFold_result, List.append_nil, ne_eq, hr, not_false_eq_true,
       true_and]
-    by_cases hall : vs.all (fun v => !(pathCallback maxSize root v).isFail) = true
-    · simp only [hall, if_true, reduceCtorEq, false_iff, not_exists, not_and]
-      intro v hv hf
-      have := List.all_eq_true.mp hall v hv
-      simp [(pathCallback_fail_iff maxSize root v).mpr hf, CbRes.isFail] at this
+    by_cases hall : vs.all (fun v => !(pathCallback true maxSize root v).isFail) = true
+    · simp only [hall, if_true]
+      constructor
+      · intro h; cases h
+      · rintro ⟨v, hv, hf⟩
+        have := List.all_eq_true.mp hall v hv
+        simp [(key v).mpr hf, CbRes.isFail] at this
     · simp only [hall, Bool.false_eq_true, if_false, true_iff]
-      have hall' : ∃ v, v ∈ vs ∧ (pathCallback maxSize root v).isFail = true := by simpa using hall
+      have hall' : ∃ v, v ∈ vs ∧ (pathCallback true maxSize root v).isFail = true := by simpa using hall
       obtain ⟨v, hv, hf⟩ := hall'
-      refine ⟨v, hv, (pathCallback_fail_iff maxSize root v).mp ?_⟩
-      cases hc : pathCallback maxSize root v <;> simp [hc, CbRes.isFail] at hf ⊢
+      refine ⟨v, hv, (key v).mp ?_⟩
+      cases hc : pathCallback true maxSize root v <;> simp [hc, CbRes.isFail] at hf ⊢
 
 /-- **A loaded directory is exactly the selected files.** The map holds `(path, content)` for every visited
 non-directory whose name has the extension `.pem`, does not start with a dot, whose size does not exceed
 `MaxSize` — and nothing else: no directory, no other extension, no dot-file, no oversized file. -/
-theorem loadPath_ok_exact (maxSize : Nat) (root : Name) (vs : List (Visit B)) (m : PemMap B)
-    (h : loadPath maxSize root vs = .blocks (some m)) :
+theorem loadPath_ok_exact (strict : Bool) (maxSize : Nat) (root : Name) (vs : List (Visit B)) (m : PemMap B)
+    (h : loadPath strict maxSize root vs = .blocks (some m)) :
     ∀ k b, (k, b) ∈ m ↔
       ∃ v ∈ vs, v.path = k ∧ selected maxSize v = true ∧ ∃ size, v.kind = .file size (some b) := by
   unfold loadPath at h
   by_cases hr : root.isEmpty = true
   · simp [hr] at h
   · simp only [hr, Bool.false_eq_true, if_false, walkFold_result, List.append_nil] at h
-    by_cases hall : vs.all (fun v => !(pathCallback maxSize root v).isFail) = true
+    by_cases hall : vs.all (fun v => !(pathCallback strict maxSize root v).isFail) = true
     · simp only [hall, if_true, LoadResult.blocks.injEq, Option.some.injEq] at h
       intro k b
       rw [← h, List.mem_reverse, List.mem_filterMap]
@@ -326,27 +349,28 @@ theorem loadPath_ok_exact (maxSize : Nat) (root : Name) (vs : List (Visit B)) (m
         · rename_i k' b' hc
           simp only [Option.some.injEq, Prod.mk.injEq] at he
           obtain ⟨rfl, rfl⟩ := he
-          obtain ⟨e, hs, hk⟩ := (pathCallback_add_iff maxSize root v _ _).mp hc
+          obtain ⟨e, hs, hk⟩ := (pathCallback_add_iff strict maxSize root v _ _).mp hc
           exact ⟨v, hv, e.symm, hs, hk⟩
         · simp at he
       · rintro ⟨v, hv, rfl, hs, hk⟩
-        exact ⟨v, hv, by simp [addOf, (pathCallback_add_iff maxSize root v v.path b).mpr ⟨rfl, hs, hk⟩]⟩
+        exact ⟨v, hv, by simp [addOf, (pathCallback_add_iff strict maxSize root v v.path b).mpr ⟨rfl, hs, hk⟩]⟩
     · simp [hall] at h
 
 /-- An empty root is "no source": the nil map. -/
-theorem loadPath_empty_root (maxSize : Nat) (vs : List (Visit B)) : loadPath maxSize [] vs = .blocks none := by
+theorem loadPath_empty_root (strict : Bool) (maxSize : Nat) (vs : List (Visit B)) :
+    loadPath strict maxSize [] vs = .blocks none := by
   simp [loadPath]
 
 /-- A root that does not exist is an empty directory to the code: the empty (non-nil) map, no error. -/
-theorem loadPath_missing_root (maxSize : Nat) (root name : Name) (hr : root ≠ []) :
-    loadPath maxSize root ((Root.missing name : Root B).visits root) = .blocks (some []) := by
+theorem loadPath_missing_root (strict : Bool) (maxSize : Nat) (root name : Name) (hr : root ≠ []) :
+    loadPath strict maxSize root ((Root.absent name .notExist : Root B).visits root) = .blocks (some []) := by
   have hr' : root.isEmpty = false := by simpa using hr
   simp [loadPath, hr', Root.visits, walkFold, pathCallback]
 
-/-- … and so is a root directory that exists but cannot be listed, whatever it holds (the type assertion
-`err.(*os.PathError)` does not distinguish "does not exist" from any other failure on the root). -/
-theorem loadPath_unlistable_root (maxSize : Nat) (root name : Name) (es : List (Node B)) (hr : root ≠ []) :
-    loadPath maxSize root ((Root.node (.dir name false es)).visits root) = .blocks (some []) := by
+/-- A root that exists but cannot be reached or listed is an *error* (since the repair `e63514f`), whatever it holds. -/
+theorem loadPath_unreachable_root (maxSize : Nat) (root name : Name) (es : List (Node B)) (hr : root ≠ []) :
+    loadPath true maxSize root ((Root.node (.dir name false es)).visits root) = .err ∧
+    loadPath true maxSize root ((Root.absent name .other : Root B).visits root) = .err := by
   have hr' : root.isEmpty = false := by simpa using hr
   simp [loadPath, hr', Root.visits, Node.visits, walkFold, pathCallback]
 
@@ -391,23 +415,21 @@ theorem http_errors_keep_working_set (sleepOnMakeErr : Bool) (canon : Option (Pe
   have : loadURL true base srv text listURL = .err := (loadURL_err_iff base srv text listURL).mpr ⟨hu, hbad srv hs⟩
   rw [this]; rfl
 
-/-- The path source is broken during this load: something below the root cannot be stat'ed or listed, or a
-selected file cannot be read. (An error on the root itself is *not* in this list — see
-`root_error_publishes_the_empty_set`.) -/
+/-- The path source is broken during this load: some path cannot be stat'ed or some directory not be listed (other
+than a root that does not exist, which is an empty directory), or a selected file cannot be read. -/
 def pathBroken (maxSize : Nat) (root : Name) (vs : List (Visit B)) : Prop :=
-  ∃ v ∈ vs, (v.path ≠ root ∧ (v.kind = .lstatErr ∨ v.kind = .dir true)) ∨
+  ∃ v ∈ vs, (∃ e, v.err = some e ∧ ¬(v.path = root ∧ e = .notExist)) ∨
     (selected maxSize v = true ∧ ∃ size, v.kind = .file size none)
 
-/-- The full statement would be: *whatever goes wrong while reading the directory, the working set stays.*
-It does not hold for the code: an error on the root path itself is swallowed (next theorem). What holds is the
-statement with the forced hypothesis "the failure is below the root":
-
-**A path source that cannot read something below its root keeps the working set.** -/
-theorem path_errors_keep_working_set_partial (sleepOnMakeErr : Bool) (canon : Option (PemMap B) → M)
+/-- **A path source that cannot read its directory keeps the working set** — whatever goes wrong: the root
+cannot be reached or listed (no permission, a parent that is a file, an I/O error), something below it cannot,
+or a selected file cannot be read; in any combination, for any history. (Before the repair `e63514f` this held only
+for failures *below* the root: `root_error_lost_the_working_set_before_repair`.) -/
+theorem path_errors_keep_working_set (sleepOnMakeErr : Bool) (canon : Option (PemMap B) → M)
     (mk : M → Option CertSet) (refresh : Int) (st : St M) (cell : Published)
     (maxSize : Nat) (root : Name) (hroot : root ≠ [])
     (history : List (List (Visit B))) (hbad : ∀ vs ∈ history, pathBroken maxSize root vs) :
-    let script := history.map fun vs => (loadPath maxSize root vs).map canon
+    let script := history.map fun vs => (loadPath true maxSize root vs).map canon
     applyOuts cell (outsOf (trace sleepOnMakeErr mk refresh st script)) = cell ∧
     runSt sleepOnMakeErr mk refresh st script = st ∧
     ∀ server strict, getCertificateP (applyOuts cell (outsOf (trace sleepOnMakeErr mk refresh st script))) server strict
@@ -416,7 +438,7 @@ theorem path_errors_keep_working_set_partial (sleepOnMakeErr : Bool) (canon : Op
   apply bad_material_keeps_working_set
   intro r hr
   obtain ⟨vs, hs, rfl⟩ := List.mem_map.mp hr
-  have : loadPath maxSize root vs = .err := (loadPath_err_iff maxSize root vs).mpr ⟨hroot, hbad vs hs⟩
+  have : loadPath true maxSize root vs = .err := (loadPath_err_iff maxSize root vs).mpr ⟨hroot, hbad vs hs⟩
   rw [this]; rfl
 
 end compose
@@ -462,16 +484,28 @@ theorem status_checked_keeps_working_set :
     publications (trace true mkFromMap second ⟨(none : Mat), false⟩ script) = [[⟨7, []⟩]] ∧
     getCertificateP cell "x.test".toList false = .cert ⟨7, []⟩ := by decide
 
-/-- **The excluded point of `path_errors_keep_working_set_partial`:** a good load, then the root directory
-cannot be listed (or is gone): the watcher publishes the empty set and the working set is lost. -/
-theorem root_error_publishes_the_empty_set :
+/-- **Before the repair `e63514f`** (`onlyNotExist = false`) `path_errors_keep_working_set` was false: a good load,
+then the root directory cannot be listed — the walk function swallowed *every* error on the root, the watcher
+published the empty set and the working set was lost. -/
+theorem root_error_lost_the_working_set_before_repair :
     let root : Name := "R".toList
     let good : Root Body := .node (.dir "R".toList true [.file "a.pem".toList 10 (some (pemFile (some 7) (some 7)))])
     let locked : Root Body := .node (.dir "R".toList false [.file "a.pem".toList 10 (some (pemFile (some 7) (some 7)))])
-    let script := [good, locked].map fun t => (loadPath maxSize root (t.visits root)).map canonMat
+    let script := [good, locked].map fun t => (loadPath false maxSize root (t.visits root)).map canonMat
     let cell := applyOuts (mkPublished []) (outsOf (trace true mkFromMap second ⟨none, false⟩ script))
     publications (trace true mkFromMap second ⟨(none : Mat), false⟩ script) = [[⟨7, []⟩], []] ∧
     getCertificateP cell "x.test".toList false = .errNoCerts := by decide
+
+/-- The same history with the repaired walk function: one publication, the working set stays. A root that is
+*gone* still is an empty directory (the reading the code documents): the empty set is published. -/
+theorem root_error_keeps_the_working_set :
+    let root : Name := "R".toList
+    let good : Root Body := .node (.dir "R".toList true [.file "a.pem".toList 10 (some (pemFile (some 7) (some 7)))])
+    let locked : Root Body := .node (.dir "R".toList false [.file "a.pem".toList 10 (some (pemFile (some 7) (some 7)))])
+    let run (h : List (Root Body)) := publications (trace true mkFromMap second ⟨(none : Mat), false⟩
+      (h.map fun t => (loadPath true maxSize root (t.visits root)).map canonMat))
+    run [good, locked, .absent "R".toList .other] = [[⟨7, []⟩]] ∧
+    run [good, .absent "R".toList .notExist] = [[⟨7, []⟩], []] := by decide
 
 /-! ## Non-vacuity -/
 
@@ -501,9 +535,9 @@ example :
       [f "a.pem" 1, f ".hidden.pem" 2, f "notes.txt" 3, .file "big.pem".toList (maxSize + 1) (some (pemFile (some 4) (some 4))),
        .dir "sub".toList true [f "z.pem" 5, f "a.PEM" 6], .dir ".git".toList true [f "k.pem" 8]]
     let broken : Node Body := .dir "R".toList true [f "a.pem" 1, .file "dangling.pem".toList 7 none]
-    (loadPath maxSize "R".toList (tree.visits "R".toList)).map (fun m => (canonMat m).map (·.map (·.1)))
+    (loadPath true maxSize "R".toList (tree.visits "R".toList)).map (fun m => (canonMat m).map (·.map (·.1)))
       = .blocks (some ["R/.git/k.pem".toList, "R/a.pem".toList, "R/sub/z.pem".toList]) ∧
-    loadPath maxSize "R".toList (broken.visits "R".toList) = .err ∧
+    loadPath true maxSize "R".toList (broken.visits "R".toList) = .err ∧
     pathBroken maxSize "R".toList (broken.visits "R".toList) := by
   refine ⟨by decide, by decide, ?_⟩
   exact ⟨⟨"R/dangling.pem".toList, "dangling.pem".toList, .file 7 none⟩, by decide, Or.inr ⟨by decide, 7, rfl⟩⟩
